@@ -132,16 +132,33 @@ def run(tier, seed, replay):
     # (3) I->S: command lines with their effect on the machine, editing in between, validated by TraceTui
     traces = []
     nt, ncmd = (4, 60) if tier == "quick" else (24, 150)
+    # readable files with valid programs: `load PATH` must have exactly the effect parse -> assemble -> load (TraceTui!LoadedFrom)
+    ldir = os.path.join(vlib.WORK, "tui", "c17-load")
+    os.makedirs(ldir, exist_ok=True)
+    files = {}
+    for name, text in (("a.asm", "#! mrasm\n LD R0, 7\nloop:\n INC R0\n ST (0xFF), R0\n JR loop\n"),
+                       ("b-größe.asm", "#! mrasm ; sizes\n*STACKSIZE 32\n*PROGRAMSIZE 40\n.ORG 4\nstart:\n LDSP 0xEF\n CALL fn\n STOP\nfn:\n MOV (0xFE), 0x5A\n RET\n.DB 1, 2, 0xb5\n.DW 0x1234\n"),
+                       ("c.asm", "#! mrasm\r\n*STACKSIZE NOSET\r\n*PROGRAMSIZE noset\r\n.EQU k 3\r\n LD R1, k\r\n DEC R1\r\n JZC 0\r\n" if False else
+                                 "#! mrasm\r\n*STACKSIZE NOSET\r\n*PROGRAMSIZE noset\r\n.EQU k 3\r\n LD R1, k\r\nl:\r\n DEC R1\r\n JZC l\r\n STOP\r\n"),
+                       ("d.asm", "#! mrasm\n*PROGRAMSIZE AUTO\n*STACKSIZE 0\n NOP\n EI\n STOP\n")):
+        fp = os.path.join(ldir, name)
+        with open(fp, "w", newline="") as fh:
+            fh.write(text)
+        files[fp] = text
     for i in range(nt):
         keys = []
         for line in command_lines(rng, ncmd):
+            if rng.random() < 0.12:
+                fp = rng.choice(sorted(files))
+                keys += tc.type_line(bl(rng) + case(rng, "load") + bl(rng, False) + fp)
+                keys += rng.choice([[], ["enter"] * 3, [("ctrl", ord("w")), "enter", "enter"], tc.type_line("next 7")])
             keys += tc.type_line(line)
             if rng.random() < 0.3:
                 keys += rng.choice([["up", "down"], ["up", "home", "delete", "end", "backspace", "enter"], [("ctrl", ord("w"))], [("ctrl", ord("e"))],
                                     [("ctrl", ord("r"))], [("ctrl", ord("l"))], [("ctrl", ord("a"))], ["enter"], [("char", ord("s")), "tab", "backtab", "enter"],
                                     [("char", 70), ("char", 68), "tab", ("char", 55), "enter"]])
         recs2, _ = tc.run_script(["new"] + [tc.key_line(k) for k in keys], "c17-cmd%d" % i)
-        evs = [{"seq": 0, "op": "new"}] + tc.to_events(recs2[1:])
+        evs = [{"seq": 0, "op": "new"}] + tc.to_events(recs2[1:], files=files)
         tp = os.path.join(vlib.WORK, "tui", "c17-cmd%d.ndjson" % i)
         vlib.write_ndjson(tp, evs)
         traces.append(tp)
@@ -236,4 +253,4 @@ def run(tier, seed, replay):
                 "one session of more than 1000 submitted lines (history); a sweep over all sizes for 4 representative states and for 7 sessions with a loaded program file (short / long / multi-byte names)" % K,
     }
     return v.finish("model_checking", cov, ["TLC", "Tui.tla as the reading of the documented commands (DESIGN Appendix D); float spellings beyond digits[.digits<=3], "
-                                            "0X/0B, successful `load` are unspecified (no-crash only)", "TestBackend instead of a real terminal; the binary is the debug build (overflow checks on)"])
+                                            "0X/0B are unspecified (no-crash only); successful `load` is specified through Mrasm.tla + Asm.tla + Machine!LoadF for files written by the check", "TestBackend instead of a real terminal; the binary is the debug build (overflow checks on)"])
